@@ -18,7 +18,8 @@ theorem bitset_spec (s : Small.BitSet) (v w : Nat) (hv : v < 256) (hw : w < 256)
 -- `maxCardinality`, `nullValue`, `New`, `NewConst`, `NewFactory`, `Factory.enumVal`, `Factory.appendString`, `Factory.AppendByteString`, `Factory.AppendString`: `Gen.factoryInit` /
 -- `Gen.factoryMethods` / `Gen.factoryNew` / `Gen.factoryNewConst` (east.go, constants resolved to their value), `C17Factory.gen_factory_canon` + `gen_factory_semantics` / `gen_factory_const_semantics`.
 -- `Column.subset`: `Gen.subsetAst` (last.go), `C04LoopsGen.gen_subset_canon` + `gen_subset_semantics`.
-theorem tie : Tie.sameAll ["ecolumn.bitset.set", "ecolumn.bitset.isSet", "ecolumn.compVal"] = true := by decide
+-- The bitset, isNull, compVal and subset are regenerated in `Gen.bitsetSet` / `bitsetIsSet` / `enumCompVal` / `enumSubset` (C17EnumRestGen); nothing of C17 is compared as text any more.
+theorem tie : Tie.sameAll [] = true := by decide
 
 /-- Today's limits: 255 values, the code 255 is the null marker (so no value is ever reported as null). -/
 theorem gen_enum_constants :
